@@ -25,11 +25,8 @@ def toText (l : List Nat) : List Nat := l.map fun b => match b with | 0 => 65 | 
 def asciiToBase (ch : Nat) : Nat :=
   if ch = 65 ∨ ch = 97 then 0 else if ch = 67 ∨ ch = 99 then 1 else if ch = 71 ∨ ch = 103 then 2
   else if ch = 84 ∨ ch = 116 then 3 else 0
-/-- lexicographic `<` on equal-length base lists -/
-def lexLt : List Nat → List Nat → Bool
-  | [], _ => false
-  | _, [] => false
-  | a :: as, b :: bs => a < b || (a == b && lexLt as bs)
+/-- lexicographic `<` on base lists (core's `List` order on `Nat`) -/
+def lexLt (a b : List Nat) : Bool := decide (a < b)
 def minRc (l : List Nat) : List Nat := if lexLt l (rc l) then l else rc l
 def windows (k : Nat) (l : List Nat) : List (List Nat) :=
   if l.length < k then [] else (List.range (l.length - k + 1)).map fun i => (l.drop i).take k
